@@ -22,6 +22,7 @@ import (
 	"encoding/hex"
 	"encoding/json"
 	"fmt"
+	"math"
 	"math/rand"
 	"os"
 	"os/exec"
@@ -221,6 +222,11 @@ func c12EntryMutations(rng *rand.Rand, base map[string]interface{}, valid cid.Ci
 				m["identity"].(map[string]interface{})["signatures"].(map[string]interface{})["id"] = wrong[n]
 			})
 		}
+	}
+	// well-formed entries with legal but unusual clock times (the time is a signed integer on the wire)
+	for _, t := range []int64{-1, -1 << 40, math.MinInt64, math.MaxInt64, 1 << 40} {
+		t := t
+		add(fmt.Sprintf("clock.time=int:%d", t), func(m map[string]interface{}) { m["clock"].(map[string]interface{})["time"] = t })
 	}
 	add("clock={}", func(m map[string]interface{}) { m["clock"] = map[string]interface{}{} })
 	add("clock-extra", func(m map[string]interface{}) { m["clock"].(map[string]interface{})["x"] = 1 })
@@ -824,7 +830,7 @@ func runC12(seed int64, tier string, outDir string) *result {
 
 	// ---- bad blocks at every position of the stored log: loaders in child processes ----
 	var jobs []c12Job
-	pick12 := []string{"empty-map", "absent:clock", "field:clock=null", "field:identity=map0", "identity.signatures=null", "field:next=text", "field:payload=uint", "toplevel:text", "key=zz", "extra-field", "absent-subset"}
+	pick12 := []string{"empty-map", "absent:clock", "field:clock=null", "field:identity=map0", "identity.signatures=null", "field:next=text", "field:payload=uint", "toplevel:text", "key=zz", "extra-field", "absent-subset", "clock.time=negint", "clock.time=int:"}
 	posStep := 1
 	for _, dm := range dec {
 		use := tier == "thorough"
